@@ -78,6 +78,8 @@ type Plan struct {
 	Fault   FaultKind
 	// OnlyWrites: FaultAt counts write requests only.
 	Yield bool // make every request a vsched scheduling point
+	// HideInList: keys the (cached) client's List does not show yet in this pass.
+	HideInList []kmodel.Key
 }
 
 type crashSentinel struct{}
@@ -204,6 +206,12 @@ type Env struct {
 func (w *World) NewEnv(actor string, pass *Pass, plan *Plan) *Env {
 	h := &hook{pass: pass, plan: plan}
 	base := &kmodel.Client{S: w.S, Sch: Scheme, Map: Mapper, Hook: h, Actor: actor}
+	if plan != nil && len(plan.HideInList) > 0 {
+		base.ListHide = map[kmodel.Key]bool{}
+		for _, k := range plan.HideInList {
+			base.ListHide[k] = true
+		}
+	}
 	cacheReader := *base
 	cacheReader.Cached = true
 	cacheReader.Filter = CacheVisible
